@@ -50,6 +50,8 @@ EXTERNAL = {
     "numpy.isnan": lambda x: isinstance(x, float) and x != x,
     "numpy.isinf": lambda x: isinstance(x, float) and x in (float("inf"), float("-inf")),
     "math.isnan": lambda x: isinstance(x, float) and x != x,
+    "numpy.isfinite": lambda x: not (isinstance(x, float) and (x != x or x in (float("inf"), float("-inf")))),
+    "math.isfinite": lambda x: not (isinstance(x, float) and (x != x or x in (float("inf"), float("-inf")))),
     "math.isinf": lambda x: isinstance(x, float) and x in (float("inf"), float("-inf")),
     "collections.OrderedDict": dict,
     "re.compile": lambda *a, **k: __import__("re").compile(*a, **k),
